@@ -24,6 +24,9 @@ for d in sorted(glob.glob(os.path.join(root, "seeded", "*"))):
             old = json.load(open(meta_p))
             if "demo" in old:
                 meta["demo"] = old["demo"]
+            # a re-run with --skip-tests keeps the recorded outcome of the repository's suite
+            if r.get("tests") is None and old.get("confirmed", {}).get("existing_test_suite_with_patch"):
+                meta["confirmed"]["existing_test_suite_with_patch"] = old["confirmed"]["existing_test_suite_with_patch"]
         except Exception:
             pass
     json.dump(meta, open(meta_p, "w"), indent=1)
